@@ -77,39 +77,68 @@ func (s *vfMuxSock) WriteTo(p []byte, addr net.Addr) (int, error) {
 		return 0, net.ErrClosed
 	default:
 	}
-	if s.blockW {
-		s.blockedW.Add(1)
-		defer s.blockedW.Add(-1)
-		for {
-			s.mu.Lock()
-			dl := s.curWDL
-			ch := s.wdlCh
+	counted := false
+	for {
+		s.mu.Lock()
+		dl, ch, blocking := s.curWDL, s.wdlCh, s.blockW
+		if !dl.IsZero() && !time.Now().Before(dl) {
 			s.mu.Unlock()
-			if !dl.IsZero() && !time.Now().Before(dl) {
-				return 0, os.ErrDeadlineExceeded
+			if counted {
+				s.blockedW.Add(-1)
 			}
-			var tm <-chan time.Time
-			if !dl.IsZero() {
-				tm = time.After(time.Until(dl))
+
+			return 0, os.ErrDeadlineExceeded // also: a deadline left in the past makes every later write fail, like a real socket
+		}
+		if !blocking {
+			s.writes = append(s.writes, vfMuxWrite{append([]byte{}, p...), addr.String()})
+			s.mu.Unlock()
+			if counted {
+				s.blockedW.Add(-1)
 			}
-			select {
-			case <-ch:
-			case <-tm:
-			case <-s.closed:
-				return 0, net.ErrClosed
+
+			return len(p), nil
+		}
+		s.mu.Unlock()
+		if !counted {
+			counted = true
+			s.blockedW.Add(1)
+		}
+		var tm <-chan time.Time
+		var t *time.Timer
+		if !dl.IsZero() {
+			t = time.NewTimer(time.Until(dl))
+			tm = t.C
+		}
+		select {
+		case <-ch:
+		case <-tm:
+		case <-s.closed:
+			if t != nil {
+				t.Stop()
 			}
+			s.blockedW.Add(-1)
+
+			return 0, net.ErrClosed
+		}
+		if t != nil {
+			t.Stop()
 		}
 	}
+}
+
+// setBlocking switches between "writes block until a write deadline fires" and "writes succeed at once".
+func (s *vfMuxSock) setBlocking(b bool) {
 	s.mu.Lock()
-	if !s.curWDL.IsZero() && !time.Now().Before(s.curWDL) {
-		s.mu.Unlock()
-
-		return 0, os.ErrDeadlineExceeded // a write deadline left in the past makes every later write fail, like a real socket
-	}
-	s.writes = append(s.writes, vfMuxWrite{append([]byte{}, p...), addr.String()})
+	s.blockW = b
+	close(s.wdlCh)
+	s.wdlCh = make(chan struct{})
 	s.mu.Unlock()
+}
 
-	return len(p), nil
+func (s *vfMuxSock) setFailWDL(b bool) {
+	s.mu.Lock()
+	s.failWDL = b
+	s.mu.Unlock()
 }
 
 func (s *vfMuxSock) Close() error {
